@@ -5,8 +5,8 @@
      scr t        : (tw + bw + lw + #tabs + widest row) * (th + max (bh, #rows)) + 1   — the screen measure incl. scrollback
      Inv09 t      : the C09 invariant (every state reachable without a text-area resize: Props/C09.v) *)
 From Coq Require Import ZArith NArith List Bool Lia.
-From IE Require Import Model.TermCore Model.AnsiTok Model.Cost Model.Alloc Proofs.TermProofs Proofs.CostProofs Proofs.AllocProofs Proofs.TicksProofs Proofs.MacroProofs Proofs.SixelCostProofs Run.RunC03.
-From IE Require Model.Sixel Model.Font Model.SixelCost.
+From IE Require Import Model.TermCore Model.AnsiTok Model.Cost Model.Alloc Proofs.TermProofs Proofs.CostProofs Proofs.AllocProofs Proofs.TicksProofs Proofs.MacroProofs Proofs.SixelCostProofs Proofs.LoadCostProofs Run.RunC03.
+From IE Require Model.Sixel Model.Font Model.SixelCost Lib.C05Lib Model.Attr Model.C05Buf Model.C05Bin Model.C05XBin Model.C05Idf Model.C05Tundra Model.C02Loaders Model.LoadCost.
 Import ListNotations.
 Local Open Scope Z_scope.
 
@@ -182,6 +182,32 @@ Theorem sixel_image_bound : forall hsl pal0 vs hs data w h d, Sixel.parse_from h
   let cs := data ++ [35] in let s0 := Sixel.init_state pal0 vs hs in let T := SixelCost.zlenN cs + SixelCost.rep_sum hsl s0 cs in
   SixelCost.zlenN d <= Z.max (6 * T + 6) (snd (SixelCost.decl_max hsl s0 cs)) * (4 * Z.max T (fst (SixelCost.decl_max hsl s0 cs))).
 Proof. exact sixel_image_bound_l. Qed.
+
+(* ---- (e) binary loaders: the cell loops of the C05 / C02 loader models with the counters of Model/LoadCost.v ------------------------------------------------------------- *)
+(* BIN, ADF, uncompressed XBin (pair_loop): cells stored = pairs read (<= half the bytes); the loaded layer holds at most max(what was there, pairs + width) cells *)
+Theorem load_ticks_bound_pair : forall grow dec w L data, 1 <= w -> C05Buf.l_w L = w -> LoadCost.lmaxrow (C05Buf.l_lines L) <= w ->
+  fst (LoadCost.pair_loop_t grow dec w L 0 0 data 0) = C05Bin.pair_loop grow dec w L 0 0 data /\
+  2 * snd (LoadCost.pair_loop_t grow dec w L 0 0 data 0) <= Z.of_nat (length data) /\
+  LoadCost.lcells (C05Buf.l_lines (C05Bin.pair_loop grow dec w L 0 0 data)) <= Z.max (w * LoadCost.lrows L) (Z.of_nat (length data) / 2 + w).
+Proof. exact load_ticks_bound_pair_l. Qed.
+(* compressed XBin (read_data_compressed): at most 1 + 64 cells per byte *)
+Theorem load_ticks_bound_xbc : forall w m fixed L data,
+  fst (LoadCost.xbc_loop_t w (C05XBin.xb_decode m fixed) (length data) L 0 0 data 0) = C02Loaders.xb_read_compressed w m fixed L data /\
+  0 <= snd (LoadCost.xbc_loop_t w (C05XBin.xb_decode m fixed) (length data) L 0 0 data 0) <= 65 * Z.of_nat (length data).
+Proof. exact load_ticks_bound_xbc_l. Qed.
+(* Tundra: one command per byte at most; rows <= declared row (< 65535: the known class `C02-resource`) + commands + 1 *)
+Theorem load_ticks_bound_tnd : forall fuel w L pal at0 data,
+  let r := LoadCost.tnd_loop2_t fuel w L pal at0 0 0 data 0 0 in
+  fst (fst r) = C02Loaders.tnd_loop2 fuel w L pal at0 0 0 data /\
+  0 <= snd (fst r) <= Z.of_nat (length data) /\ 0 <= snd r <= 65534 /\
+  (forall L' p', C02Loaders.tnd_loop2 fuel w L pal at0 0 0 data = C05Lib.Ok (L', p') -> LoadCost.lrows L' <= Z.max (LoadCost.lrows L) (snd r + snd (fst r) + 1)).
+Proof. exact load_ticks_bound_tnd_l. Qed.
+(* IDF: cells stored <= half the bytes + the run lengths declared by repeat records (the known class) *)
+Theorem load_ticks_bound_idf : forall x1 x2 L bh x y area,
+  fst (fst (LoadCost.idf_loop_t x1 x2 L bh x y area 0 0)) = C05Idf.idf_loop x1 x2 L bh x y area /\
+  0 <= snd (fst (LoadCost.idf_loop_t x1 x2 L bh x y area 0 0)) /\
+  2 * snd (fst (LoadCost.idf_loop_t x1 x2 L bh x y area 0 0)) <= Z.of_nat (length area) + 2 * snd (LoadCost.idf_loop_t x1 x2 L bh x y area 0 0).
+Proof. exact load_ticks_bound_idf_l. Qed.
 
 (* ---- non-vacuity: the ledger inputs through the model ---------------------------------------------------------------------------------------- *)
 (* CSI 2147483647 S on 80x25: 12 parameter characters + 25 scrolls, not 2^31 *)
